@@ -11,12 +11,14 @@ Everything here works on the parsed program only (ast / CFG); nothing is importe
 * `assign_nodes(g, name)`  -- CFG nodes that (re)bind a local name
 * `reaching(f, name, at)`  -- reaching definitions of `name` at CFG node `at` ('param' included)
 * `impure(prog, f, expr)`  -- expression contains a call whose value differs per evaluation
+* `calls_flow(f, expr, at)`-- like calls_deep but follows only the definitions that reach CFG node `at`
+* `clone(node)`            -- structural AST copy that does not follow the engine's `_parent` back-pointers
+                              (copy.deepcopy on an engine AST copies the whole module through `_parent`)
 """
 
 from __future__ import annotations
 
 import ast
-import copy
 
 from ..dataflow import defs_of
 from ..model import Func, Program, dotted, parent, unparse, walk_no_nested
@@ -30,6 +32,22 @@ def _single_def(f: Func, name: str):
     if len(ds) == 1 and ds[0].kind in ("assign", "walrus") and ds[0].index is None and ds[0].value is not None:
         return ds[0].value
     return None
+
+
+def clone(n):
+    """Structural copy of an AST (the engine's `_parent` back-pointers are not followed)."""
+    if isinstance(n, ast.AST):
+        new = n.__class__()
+        for fld in n._fields:
+            if hasattr(n, fld):
+                setattr(new, fld, clone(getattr(n, fld)))
+        for a in n._attributes:
+            if hasattr(n, a):
+                setattr(new, a, getattr(n, a))
+        return new
+    if isinstance(n, list):
+        return [clone(x) for x in n]
+    return n
 
 
 def expand(f: Func, expr: ast.AST, depth: int = 4, _seen: frozenset = frozenset()) -> ast.AST:
@@ -47,7 +65,7 @@ def expand(f: Func, expr: ast.AST, depth: int = 4, _seen: frozenset = frozenset(
         def visit_Await(self, n: ast.Await):
             return self.visit(n.value)
 
-    return T().visit(copy.deepcopy(expr))
+    return T().visit(clone(expr))
 
 
 def norm(f: Func, expr: ast.AST) -> str:
@@ -56,14 +74,14 @@ def norm(f: Func, expr: ast.AST) -> str:
 
 def calls_deep(f: Func, expr: ast.AST, depth: int = 4, _seen: frozenset = frozenset()) -> list[ast.Call]:
     """Calls evaluated by `expr`, including those inside the definitions of the locals it reads
-    (all plain assignments, flow-insensitively)."""
+    (all assignments, loop iterables and context expressions, flow-insensitively)."""
     out: list[ast.Call] = []
     for n in [expr, *walk_no_nested(expr)]:
         if isinstance(n, ast.Call):
             out.append(n)
         elif isinstance(n, ast.Name) and isinstance(n.ctx, ast.Load) and depth > 0 and n.id not in _seen:
             for d in defs_of(f, n.id):
-                if d.kind in ("assign", "walrus", "aug") and d.value is not None:
+                if d.kind in ("assign", "walrus", "aug", "for", "comp", "with") and d.value is not None:
                     out.extend(calls_deep(f, d.value, depth - 1, _seen | {n.id}))
     return out
 
@@ -249,3 +267,34 @@ def impure(prog: Program, f: Func, expr: ast.AST) -> bool:
 
 def const_str(node: ast.AST):
     return node.value if isinstance(node, ast.Constant) and isinstance(node.value, str) else None
+
+
+# --------------------------------------------------------------------------- flow-sensitive call collection
+
+
+def calls_flow(f: Func, expr: ast.AST, at: int, depth: int = 5, _seen: frozenset = frozenset()) -> list[ast.Call]:
+    """Calls evaluated to produce `expr` at CFG node `at`: the calls in `expr` itself plus, for every local it
+    reads, the calls of the definitions that *reach* `at` (so a sibling branch's definition is not counted)."""
+    g = f.cfg
+    out: list[ast.Call] = []
+    for n in [expr, *walk_no_nested(expr)]:
+        if isinstance(n, ast.Call):
+            out.append(n)
+        elif isinstance(n, ast.Name) and isinstance(n.ctx, ast.Load) and depth > 0 and (n.id, at) not in _seen:
+            for d in reaching(f, n.id, at):
+                if d == "param":
+                    continue
+                node = g.nodes[d]
+                a = node.ast
+                vals = []
+                if node.kind == "stmt" and isinstance(a, (ast.Assign, ast.AnnAssign, ast.AugAssign)) and a.value is not None:
+                    vals.append(a.value)
+                elif node.kind == "iter":
+                    vals.append(a.iter)
+                elif node.kind == "with_enter":
+                    vals.extend(i.context_expr for i in a.items)
+                else:
+                    vals.extend(x.value for x in node.walk() if isinstance(x, ast.NamedExpr) and x.target.id == n.id)
+                for v in vals:
+                    out.extend(calls_flow(f, v, d, depth - 1, _seen | {(n.id, at)}))
+    return out
